@@ -91,6 +91,32 @@ def run_cbmc(goto, function="main", unwind=None, unwindset=None, extra=(), timeo
     return res, out
 
 
+def nondet_sequence(out):
+    """ordered values returned by nondet_*() in a CBMC trace (for the native replay of the counterexample)"""
+    seq = []
+    for m in re.finditer(r"^\s*return_value_nondet_(int|uint|char|double|float|long|bool)(?:\$\d+)?=([^\s(]+)", out, re.M):
+        v = m.group(2)
+        if v in ("TRUE", "FALSE"): v = "1" if v == "TRUE" else "0"
+        v = re.sub(r"(?<=[0-9a-fA-F.])(ul|l|u|f)$", "", v)
+        if v.startswith("'") and v.endswith("'") and len(v) >= 3:
+            inner = v[1:-1]; v = str(ord(inner)) if len(inner) == 1 else str(int(inner.replace("\\", ""), 8) if inner.startswith("\\") and inner[1:].isdigit() else 0)
+        seq.append(v)
+    return seq
+
+
+def native_replay(wd, name, sources, defs, seq, incs=(), timeout=60, stubs=()):
+    """compile the same harness + /repo sources natively and feed the recorded nondet values; returns (reproduced, output)"""
+    exe = os.path.join(wd, name + ".replay"); vf = os.path.join(wd, name + ".vals")
+    open(vf, "w").write("\n".join(seq) + "\n")
+    sf = os.path.join(wd, name + "_stubs.c")
+    open(sf, "w").write("#include <stdlib.h>\n#include <stdio.h>\n" + "".join("void %s(void) { printf(\"REPLAY-FAIL: cut function %s reached\\n\"); exit(1); }\n" % (f, f) for f in stubs))
+    cmd = ["cc", "-O0", "-w", "-I" + REPO + "/SRC", "-I" + VERIF + "/harness/e1", "-DNDEBUG", "-DPRNTlevel=0", "-DDEBUGlevel=0"] + ["-I" + i for i in incs] + [d for d in defs if d != "-DWITNESS"] + ["-o", exe] + list(sources) + [sf, "-lm"]
+    rc, o = sh(cmd, timeout=300)
+    if rc != 0: return None, "native build failed: " + o[-800:]
+    rc, o = sh([exe], timeout=timeout, env=dict(os.environ, E1_REPLAY=vf))
+    return ("REPLAY-FAIL" in o) or rc in (-11, -6, 139, 134), "rc=%s %s" % (rc, o[-600:])
+
+
 def trace_inputs(out, limit=60):
     """pull harness-level assignments (nondet choices) out of a CBMC trace for the replay record"""
     vals = []
@@ -115,9 +141,20 @@ class Harness:
                 und = [f for f in undefined_functions(g) if f not in LIBC_KEEP and f not in self.assume_false]
                 af = sorted(set(af) | set(und))
             g2 = cut(g, g + ".cut", assert_false=af, assume_false=self.assume_false, remove_first=self.remove)
-            res, txt = run_cbmc(g2, self.function, self.unwind, self.unwindset, self.extra, self.timeout, trace=not twin, flags=self.flags)
+            uws = dict(self.unwindset or {}); adapt = []
+            for attempt in range(4):   # adaptive unwinding: raise the bound of exactly the loops whose unwinding assertion failed (cap: 4 rounds, x2 each)
+                res, txt = run_cbmc(g2, self.function, self.unwind, uws, self.extra, self.timeout, trace=not twin, flags=self.flags)
+                if twin or res["verdict"] != "FAILED" or not res["unwinding_failed"] or res["failed"]: break
+                for uf in res["unwinding_failed"]:
+                    m_ = re.match(r"(.+)\.unwind\.(\d+)$", uf["id"])
+                    if m_: lp = "%s.%s" % (m_.group(1), m_.group(2)); uws[lp] = 2 * uws.get(lp, self.unwind or 2) + 1; adapt.append(lp)
+            res["final_unwindset"] = uws; res["adapted_loops"] = adapt
             res["cuts_assert_false"] = af; res["cuts_assume_false"] = list(self.assume_false)
-            if not twin: res["trace_inputs"] = trace_inputs(txt) if res["verdict"] == "FAILED" else []; res["tail"] = txt[-1500:] if res["verdict"] in ("ERROR",) else ""
+            if not twin:
+                res["trace_inputs"] = trace_inputs(txt) if res["verdict"] == "FAILED" else []; res["tail"] = txt[-1500:] if res["verdict"] in ("ERROR",) else ""
+                if res["verdict"] == "FAILED" and res["failed"]:
+                    seq = nondet_sequence(txt); rep, rout = native_replay(wd, nm, self.sources, list(self.defs), seq, self.incs, stubs=af)
+                    res["native_replay"] = {"reproduced": rep, "output": rout, "values": seq[:80]}
             out["witness" if twin else "main"] = res
             for f in (g, g2):
                 try: os.remove(f)
@@ -142,7 +179,10 @@ def run_harnesses(chk, harnesses, phase_name, bounds, violation_filter=None, unw
             real = [f for f in m["failed"] if not violation_filter or violation_filter(h, f)]
             for f in real[:5]:
                 key = {"engine": "E1", "harness": h.name, "assert_id": f["desc"][:80], "site": f["id"]}
-                chk.violation(key, "CBMC counterexample in %s: %s (%s line %s); inputs %s" % (h.name, f["desc"], f["id"], f["line"], m["trace_inputs"][:25]), {"harness": h.name, "cmd": m["cmd"], "sources": h.sources, "defs": list(h.defs), "failed": f, "trace_inputs": m["trace_inputs"]})
+                nr = m.get("native_replay") or {}
+                chk.violation(key, "CBMC counterexample in %s: %s (%s line %s); native replay of the recorded nondet values: %s [%s]; nondet values %s" % (h.name, f["desc"], f["id"], f["line"],
+                              {True: "REPRODUCED", False: "not reproduced", None: "not run"}[nr.get("reproduced")], (nr.get("output") or "")[-200:].replace("\n", " | "), (nr.get("values") or [])[:30]),
+                              {"harness": h.name, "cmd": m["cmd"], "sources": h.sources, "defs": list(h.defs), "failed": f, "nondet_values": nr.get("values"), "native_replay": nr})
             if m["unwinding_failed"]:
                 msg = "%s: unwinding assertion failed at the derived cap: %s" % (h.name, m["unwinding_failed"][:2])
                 if unwinding_is_violation: chk.violation({"engine": "E1", "harness": h.name, "assert_id": "unwinding", "site": m["unwinding_failed"][0]["id"]}, msg, {"harness": h.name, "cmd": m["cmd"]})
